@@ -156,3 +156,52 @@ Fixpoint wf_b (n : nat) (m : mr) : bool :=
         end
   end.
 
+
+(* ---- BaseFileSegment.root_parse (segments/file.py): trim non-code at both ends, match the middle, wrap what the grammar did
+   not claim into an unparsable node.  `is_code i` for token i; the root grammar's match is a parameter. *)
+Section RootParse.
+  Variable n : nat.
+  Variable is_code : nat -> bool.
+
+  (* `for _start_idx in range(n): if is_code: break` -- the loop variable after the loop *)
+  Fixpoint scan_start (i cnt : nat) : nat :=
+    match cnt with
+    | 0 => i
+    | S c => if is_code i then i else match c with 0 => i | _ => scan_start (S i) c end
+    end.
+  Definition start_idx : nat := scan_start 0 n.
+
+  (* `for _end_idx in range(n, start - 1, -1): if is_code(_end_idx - 1): break` *)
+  Fixpoint scan_end (e cnt : nat) : nat :=
+    match cnt with
+    | 0 => e
+    | S c => if is_code (e - 1) then e else match c with 0 => e | _ => scan_end (e - 1) c end
+    end.
+  Definition end_idx : nat := scan_end n (S n - start_idx).
+
+  Definition cls_file : nat := 0.
+  Definition cls_unparsable : nat := 1.
+
+  (* first code index within [a, b), else the last index visited (loop variable semantics of `for _idx in range(len): if code: break`) *)
+  Fixpoint first_code_off (a cnt off : nat) : nat :=
+    match cnt with
+    | 0 => off
+    | S c => if is_code (a + off) then off else match c with 0 => off | _ => first_code_off a c (S off) end
+    end.
+
+  Definition root_parse (m : mr) : res tree :=
+    let s := start_idx in let e := end_idx in
+    if s =? e then Ok (Node cls_file (toks 0 n))
+    else
+      match apply n m with
+      | Err er => Err er
+      | Ok matched =>
+          let content :=
+            if negb (truthy m) then [Node cls_unparsable (toks s (e - s))]
+            else if mstop m <? e then
+              let k := first_code_off (mstop m) (e - mstop m) 0 in
+              matched ++ toks (mstop m) k ++ [Node cls_unparsable (toks (mstop m + k) (e - (mstop m + k)))]
+            else matched ++ toks (mstop m) (e - mstop m)
+          in Ok (Node cls_file (toks 0 s ++ content ++ toks e (n - e)))
+      end.
+End RootParse.
